@@ -124,9 +124,19 @@ uint StatCoder::decodeString(ChunkScan *c) {
   }
 
   // Extracts, at least, the two first bytes because represent the VByte
-  // encoding of the prefix length
-  while ((c->strLen - prevLen) < 2)
+  // encoding of the prefix length (and all of it when it takes more: it is
+  // closed by the first byte with the highest bit set)
+  bool closed = false;
+  uint checked = 0;
+  for (; (checked < (c->strLen - prevLen)) && !closed; checked++)
+    closed = ((c->str[prevLen + checked] & 0x80) != 0);
+
+  while (((c->strLen - prevLen) < 2) || !closed) {
     end = table->processChunk(c);
+
+    for (; (checked < (c->strLen - prevLen)) && !closed; checked++)
+      closed = ((c->str[prevLen + checked] & 0x80) != 0);
+  }
 
   // Appends the extracted chars before the common prefix
   uint extracted = c->strLen - prevLen;
